@@ -142,20 +142,26 @@ def main_c19(tier):
                                                        r["k"], ("=%d" % r["v"]) if "v" in r else ""), doc)
         reported.append({"index": -1, "sig": [case.tool, cls, run.signature_site()], "replay": path,
                          "digest": run.digest(), "plan": plan})
-    # ---- determinism self-check and fidelity
+    # ---- determinism self-check and fidelity (a failure here must never hide a violation that
+    # is already established: with violations to report it is downgraded to a warning)
     det = 0
-    if cfg["det"]:
-        step = max(1, n // cfg["det"])
-        det = determinism_selfcheck("C19", seed, list(range(0, n, step))[:cfg["det"]], recs)
     fid_n, fid_bad = 0, []
-    if cfg["fid"]:
-        step = max(1, n // cfg["fid"])
-        idxs = list(range(0, n, step))[:cfg["fid"]]
-        for cnt, bad in pmap(dc.fidelity_chunk, [("C19", seed, idxs[k::16]) for k in range(16)]):
-            fid_n += cnt
-            fid_bad += bad
-        if fid_bad:
-            raise HarnessFailure("simulation disagrees with the real CLI: %s" % fid_bad[:3])
+    try:
+        if cfg["det"]:
+            step = max(1, n // cfg["det"])
+            det = determinism_selfcheck("C19", seed, list(range(0, n, step))[:cfg["det"]], recs)
+        if cfg["fid"]:
+            step = max(1, n // cfg["fid"])
+            idxs = list(range(0, n, step))[:cfg["fid"]]
+            for cnt, bad in pmap(dc.fidelity_chunk, [("C19", seed, idxs[k::16]) for k in range(16)]):
+                fid_n += cnt
+                fid_bad += bad
+            if fid_bad:
+                raise HarnessFailure("simulation disagrees with the real CLI: %s" % fid_bad[:3])
+    except HarnessFailure as e:
+        if not reported:
+            raise
+        say("HARNESS-WARNING: %s" % e)
     # ---- report
     for k in known:
         say("KNOWN-FINDING: property=C19 %s (see known_findings.json)" % k)
@@ -303,18 +309,23 @@ def main_c18(tier):
                                                                r["s"], r["mode"]), doc)
         reported.append({"index": -1, "sig": [case.tool, doc["expect"]["class"]], "replay": path})
     det = 0
-    if cfg["det"]:
-        step = max(1, n // cfg["det"])
-        det = determinism_selfcheck("C18", seed, list(range(0, n, step))[:cfg["det"]], recs)
     fid_n, fid_bad = 0, []
-    if cfg["fid"]:
-        step = max(1, n // cfg["fid"])
-        idxs = list(range(0, n, step))[:cfg["fid"]]
-        for cnt, b in pmap(dc.fidelity_chunk, [("C18", seed, idxs[k::16]) for k in range(16)]):
-            fid_n += cnt
-            fid_bad += b
-        if fid_bad:
-            raise HarnessFailure("simulation disagrees with the real CLI: %s" % fid_bad[:3])
+    try:
+        if cfg["det"]:
+            step = max(1, n // cfg["det"])
+            det = determinism_selfcheck("C18", seed, list(range(0, n, step))[:cfg["det"]], recs)
+        if cfg["fid"]:
+            step = max(1, n // cfg["fid"])
+            idxs = list(range(0, n, step))[:cfg["fid"]]
+            for cnt, b in pmap(dc.fidelity_chunk, [("C18", seed, idxs[k::16]) for k in range(16)]):
+                fid_n += cnt
+                fid_bad += b
+            if fid_bad:
+                raise HarnessFailure("simulation disagrees with the real CLI: %s" % fid_bad[:3])
+    except HarnessFailure as e:
+        if not reported:
+            raise
+        say("HARNESS-WARNING: %s" % e)
     for k in known:
         say("KNOWN-FINDING: property=C18 %s (see known_findings.json)" % k)
     for m in reported:
